@@ -205,8 +205,40 @@ def g_views_across_conversions():
         s._thermal_condition._T = T
         touch = E.pick(list(s.phases), 'view-requested-before')
         s[touch]
-        conv = E.pick(['phases:=slg', 'phases:=slgL', 'vle', 'lle', 'sle', 'T:=', 'none'], 'conversion')
-        if conv.startswith('phases:='):
+        conv = E.pick(['phases:=slg', 'phases:=slgL', 'vle', 'lle', 'sle', 'T:=', 'none', 'collapse+expand'], 'conversion')
+        if conv == 'collapse+expand':
+            # the stream is collapsed to ONE phase (it becomes a Stream) and made multi-phase again: views taken in
+            # its earlier multi-phase life must not survive
+            one = E.pick(list(s.phases), 'collapsed-to')
+            how = E.pick(['phase:=', 'phases:=', 'as_stream'], 'collapsed-by')
+            tot = [sum(model[p][i] for p in model) for i in range(N)]
+            if how == 'phase:=':
+                s.phase = one
+            elif how == 'phases:=':
+                s.phases = (one,)
+            else:
+                for p in s.phases:
+                    if p != one:
+                        s.imol[p] = 0.0
+                tot = list(model[one])
+                s.as_stream()
+                one = {'L': 'l', 'S': 's'}.get(one, one)      # MultiStream.phase names a liquid 'l' and a solid 's'
+            if isinstance(s, tmo.MultiStream):
+                raise core.PathAbort('did not collapse')
+            back = E.pick(['phases:=', 'vle', 'sle'], 'expanded-by')
+            if back == 'phases:=':
+                s.phases = start
+                q = one
+            else:
+                # Stream.vle: a solid becomes liquid, then phases ('g', 'l'); Stream.sle: anything but l/s/L/S becomes
+                # liquid, then phases ('s', 'l'); 'L' folds into 'l' by the case rule
+                q = {'vle': {'s': 'l', 'L': 'l', 'l': 'l', 'g': 'g'}, 'sle': {'g': 'l', 'L': 'l', 'l': 'l', 's': 's'}}[back][one]
+                getattr(s, back)
+            model = {p: (tot if p == q else [0.0] * N) for p in s.phases}
+            if q not in model:
+                raise core.PathAbort('phase not in target')
+            conv = f'collapse to {one} by {how} ; expand by {back}'
+        elif conv.startswith('phases:='):
             tgt = conv.split('=')[1]
             model = remap(model, tgt)
             s.phases = tgt
